@@ -192,6 +192,15 @@ def gen_op(rng, tree: TreeModel, classes, swarm, recent=None):
         kinds += ["remove"] * 2
     files = tree.file_paths()
     dirs = tree.dirs()
+    if files and rng.random() < swarm.get("bytes_p", 0.0):
+        # contents handed over as already-encoded bytes (written verbatim)
+        path = rng.choice(files)
+        text = gen_edit_text(rng, tree, path, classes)
+        try:
+            raw = encode_text(text, rng.choice(["\n", "\n", "\r\n", "\r"]))
+            return ["bytes", path, raw.decode("latin-1")]
+        except (UnicodeError, LookupError):
+            pass
     for _ in range(10):
         k = rng.choice(kinds)
         if k == "edit" and files:
